@@ -132,7 +132,12 @@ func (s *jwtSigner) load() error {
 	}
 
 	keys := make([]jose.JSONWebKey, len(ks.Entries()))
+
 	for idx, entry := range ks.Entries() {
+		if err = entry.CheckJOSESupport(); err != nil {
+			return err
+		}
+
 		keys[idx] = entry.JWK()
 	}
 
